@@ -36,7 +36,7 @@ InitSt(T) == [r \in 1..Len(Progs[T.pi].runs) |-> InitRun]
 InitG == [snap |-> <<>>, outcomes |-> {}]
 SemOf(T) == LET P == Progs[T.pi] IN [r \in 1..Len(P.runs) |-> Sem(P, P.runs[r], r)]
 
-(* log entries: <<"BS", n, kw, t>>, <<"BE", n, kw, out, t>>, <<"DF", n, kw, out>>,
+(* log entries: <<"BS", n, kw, t, act>>, <<"BE", n, kw, out, t>>, <<"DF", n, kw, out>>,
                 <<"EV", kind, n, err, res>>, <<"SV", n, v>> *)
 IsBS(x) == x[1] = "BS"
 IsBE(x) == x[1] = "BE"
@@ -85,6 +85,7 @@ CheckBodyStart(P, T, sm, s, ln) ==
                  THEN (IF cnt + 1 > InvCount(sm, n, kw)
                        THEN {"C04.once"} \cup (IF nd.attempts > 1 THEN {"C12.count"} ELSE {})
                                          \cup (IF P.has_rec THEN {"C11.bound"} ELSE {})
+                                         \cup (IF \E k \in 1..Len(P.case_nodes) : P.case_nodes[k] = n THEN {"C09.reuse"} ELSE {})
                        ELSE {})
                  ELSE IF n \in InvNodes(sm)
                       THEN Feat(P, {"C03.final"} \cup (IF nd.attempts > 1 THEN {"C12.sameargs"} ELSE {}),
@@ -103,6 +104,14 @@ CheckBodyStart(P, T, sm, s, ln) ==
                   ELSE {}
     IN  invc \cup cleanc \cup inputc \cup orderc \cup pairc \cup delayc
         \cup LateC(s) \cup StartC(s) \cup AfterCompleteC(s)
+
+(* a body that is declared to run as a coroutine, in a thread or in a process must not complete inside the very
+   loop step that started it: run inline it blocks the loop and its equal-depth siblings cannot be in flight *)
+CheckBodyEnd(P, T, sm, s, ln) ==
+    LET nd == Node(P, ln.n)
+        bs == LastIdx(s.log, LAMBDA x : IsBS(x) /\ x[2] = ln.n /\ x[3] = ln.kw)
+    IN  IF nd.mode # "inline" /\ ln.act >= 0 /\ bs > 0 /\ s.log[bs][5] = ln.act
+        THEN {"C06.blocking", "C17.mode"} ELSE {}
 
 CheckDefault(P, T, sm, s, ln) ==
     LET n == ln.n
@@ -186,7 +195,7 @@ CheckReturn(P, T, sm, s, ln) ==
       (IF T.amb THEN {}
        ELSE CASE sr[1] = "V" ->
                    IF kind = "value" THEN (IF v = sr[2] THEN {} ELSE {"C01.value"})
-                   ELSE {"C05.verdict", "C01.error"}
+                   ELSE {"C05.verdict", "C01.error"} \cup (IF P.has_oneof THEN {"C10.contain"} ELSE {})
               [] sr[1] = "F" ->
                    LET base == {c \in sr[2] : IsBaseTok(c)}
                    IN  IF kind = "value" THEN {"C05.verdict", "C01.value"}
@@ -225,8 +234,15 @@ CheckReturn(P, T, sm, s, ln) ==
       \cup
       (* retry policy: every required invocation happened exactly the configured number of times *)
       (IF kind = "value" /\ ~T.amb /\ sr[1] = "V"
-       THEN (IF \A x \in sm.must : Count(s.log, LAMBDA y : IsBS(y) /\ y[2] = x[1] /\ y[3] = x[2]) = x[3]
-             THEN {} ELSE {"C12.count", "C04.once"})
+       THEN UNION {LET c == Count(s.log, LAMBDA y : IsBS(y) /\ y[2] = x[1] /\ y[3] = x[2])
+                   IN  IF c = x[3] THEN {}
+                       ELSE IF c > x[3] THEN {"C04.once"} \cup (IF Node(P, x[1]).attempts > 1 THEN {"C12.count"} ELSE {})
+                       ELSE (* a required invocation is missing *)
+                            (IF Node(P, x[1]).attempts > 1 THEN {"C12.count"} ELSE {})
+                            \cup (IF \E k \in 1..Len(P.rec_inside) : P.rec_inside[k] = x[1] THEN {"C11.paths"} ELSE {})
+                            \cup (IF Node(P, x[1]).attempts <= 1 /\ ~(\E k \in 1..Len(P.rec_inside) : P.rec_inside[k] = x[1])
+                                  THEN {"C03.final"} ELSE {})
+                   : x \in sm.must}
        ELSE {})
 
 CheckPostRun(P, T, S, ln) ==
@@ -246,7 +262,7 @@ Upd(S, r, f(_)) == [S EXCEPT ![r] = f(S[r])]
 AppendLog(s, x) == [s EXCEPT !.log = Append(@, x)]
 
 ApplyLine(S, ln) ==
-    CASE ln.e = "BodyStart" -> Upd(S, ln.r, LAMBDA s : AppendLog(s, <<"BS", ln.n, ln.kw, ln.t>>))
+    CASE ln.e = "BodyStart" -> Upd(S, ln.r, LAMBDA s : AppendLog(s, <<"BS", ln.n, ln.kw, ln.t, ln.act>>))
       [] ln.e = "BodyEnd"   -> Upd(S, ln.r, LAMBDA s : AppendLog(s, <<"BE", ln.n, ln.kw, ln.out, ln.t>>))
       [] ln.e = "Default"   -> Upd(S, ln.r, LAMBDA s : AppendLog(s, <<"DF", ln.n, ln.kw, ln.out>>))
       [] ln.e = "Save"      -> Upd(S, ln.r, LAMBDA s : AppendLog(s, <<"SV", ln.n, ln.v>>))
@@ -268,6 +284,7 @@ ApplyLine(S, ln) ==
 
 CheckLine(P, T, S, ln) ==
     CASE ln.e = "BodyStart" -> CheckBodyStart(P, T, sem[ln.r], S[ln.r], ln)
+      [] ln.e = "BodyEnd"   -> CheckBodyEnd(P, T, sem[ln.r], S[ln.r], ln)
       [] ln.e = "Default"   -> CheckDefault(P, T, sem[ln.r], S[ln.r], ln)
       [] ln.e = "Ev"        -> CheckEv(P, T, sem[ln.r], S[ln.r], ln)
       [] ln.e = "Save"      -> CheckSave(P, T, sem[ln.r], S[ln.r], ln)
